@@ -369,3 +369,14 @@ Fixpoint cvalue_eqb (a b : cvalue) : bool :=
          end) xs ys
   | _, _ => false
   end.
+
+(* result of a reference decoder *)
+Inductive ref_result :=
+| RValue (v : cvalue) (rest : bytes)
+| RUnsupported            (* well-formed so far, but outside the supported subset *)
+| RTruncated              (* input ended inside an item *)
+| RMalformed.             (* not well-formed *)
+
+Definition take (n : Z) (b : bytes) : option (bytes * bytes) :=
+  if (n <? 0) then None else
+  if (zlen b <? n) then None else Some (firstn (Z.to_nat n) b, skipn (Z.to_nat n) b).
